@@ -118,6 +118,19 @@ def check(ctx):
                 "stand-alone payload of exactly one datagram, none twice, every datagram with data once.")
     ctx.assumptions += ["'decodes successfully' is settled by the stand-alone real decoder: message and no error = counted, no message = not counted, message with an error (or an sFlow datagram without a publishable sample) = either",
                         "loopback UDP; pacing against the collector's own counters; the outgoing queue (1000) is never filled"]
+    # beside everything else: a collector that stays up for 35 s (long_uptime)
+    import threading
+    import gen_sflow
+    import sflowlib
+    gs = gen_sflow.Gen(ctx.rng)
+    cands = [gs.datagram(v6=False, sub=0, seq=0, only=1)[0] for _ in range(12)]
+    rr = sflowlib.run(ctx, sflowlib.driver(ctx), [{"msgs": [{"buf": b, "filter": []}]} for b in cands], "upprobe")
+    sf = next((b for b, x in zip(cands, rr) if not x.get("skipped") and "killed" not in x and x["res"][0]["st"] == "ok" and x["res"][0]["flows"]), None)
+    if sf is None:
+        raise vlib.Infra("no decodable sFlow datagram among the candidates")
+    up = {}
+    up_thread = threading.Thread(target=lambda: up.update(long_uptime(ctx, sf)), daemon=True)
+    up_thread.start()
     c12.pipeline_model(ctx, thorough, retire=True)
     ctx.tlc_must_fail("PipelineMC", "drop.cfg", files={"drop.cfg": c12.pipe_cfg(dg="MCDgrams2", retire=1, drops="TRUE")}, expect="CountsExact", workers=8)
     # ---- worker side
@@ -195,6 +208,90 @@ def check(ctx):
     backlog_stage(ctx, thorough)
     end_to_end(ctx, thorough)
     stats_views(ctx, thorough)
+    up_thread.join(timeout=120)
+    if up_thread.is_alive() or not up:
+        raise vlib.Infra("long-uptime stage did not finish")
+    judge_long_uptime(ctx, up)
+
+
+def long_uptime(ctx, sf):
+    """a collector that has been up for more than half a minute with a trickle of traffic (one datagram per protocol every 0.7 s,
+    never a pause that lets the receive loops time out twice), then bursts of four datagrams back to back: every datagram has
+    its own sequence number, every one with data is published once.  Runs beside the other stages; returns observations."""
+    import time
+    try:
+        binary = ctx.go_build_bin("vflow")
+        d = ctx.subdir("e2e13up")
+        sink = e2e.Sink()
+        sink.start()
+        col = e2e.Collector(ctx, binary, d, sink.port, workers=2)
+        senders = e2e.Senders(2)
+        src = sorted(senders.socks)[0]
+        u32 = lambda n: [(n >> 24) & 255, (n >> 16) & 255, (n >> 8) & 255, n & 255]
+        from props import c04
+        d9, di = c04.data_msg("v9", 256), c04.data_msg("ipfix", 256)
+        mk = {"ipfix": lambda n: di[:8] + u32(n) + di[12:],                       # sequence number
+              "netflow9": lambda n: d9[:12] + u32(n) + d9[16:],                   # package sequence
+              "netflow5": lambda n: [0, 5, 0, 1] + [1] * 12 + u32(n) + [0] * 4 + [7] * 48,     # flow sequence
+              "sflow": lambda n: sf[:20] + u32(n) + sf[24:]}                      # datagram sequence number
+        sent = {p: 0 for p in mk}
+        try:
+            col.start()
+            senders.send(src, col.ports["ipfix"], c04.tpl_msg("ipfix", 256, 1))
+            senders.send(src, col.ports["netflow9"], c04.tpl_msg("v9", 256, 1))
+            if not e2e.wait_until(lambda: col.stats()["IPFIX"]["DecodedCount"] >= 1 and col.stats()["NetflowV9"]["DecodedCount"] >= 1, timeout=10):
+                return {"error": "templates not decoded"}
+            t0 = time.time()
+            while time.time() - t0 < 31.5:
+                for p in mk:
+                    sent[p] += 1
+                    senders.send(src, col.ports[p], mk[p](sent[p]))
+                time.sleep(0.7)
+            for burst in range(6):
+                for p in mk:
+                    for _ in range(4):
+                        sent[p] += 1
+                        senders.send(src, col.ports[p], mk[p](sent[p]))
+                time.sleep(0.25)
+            last = None
+            for _ in range(80):
+                cur = len(sink.snapshot())
+                if cur == last and cur >= sum(sent.values()):
+                    break
+                last = cur
+                time.sleep(0.1)
+            st = col.stats()
+            lines = {p: [norm_payload(p, l) for l in sink.snapshot() if classify_line(l) == p] for p in mk}
+            return {"sent": sent, "udp": {p: st[e2e.KEY[p]]["UDPCount"] - (1 if p in ("ipfix", "netflow9") else 0) for p in mk},
+                    "lines": {p: len(v) for p, v in lines.items()}, "distinct": {p: len(set(v)) for p, v in lines.items()},
+                    "twice": {p: next((l.decode("utf-8", "replace")[:300] for l in v if v.count(l) > 1), None) for p, v in lines.items()}}
+        finally:
+            col.kill()
+            sink.close()
+            senders.close()
+    except Exception as e:
+        import traceback
+        return {"error": repr(e) + traceback.format_exc()[-500:]}
+
+
+def judge_long_uptime(ctx, r):
+    if "error" in r:
+        raise vlib.Infra("long-uptime stage: " + r["error"])
+    for p, n in r["sent"].items():
+        ctx.count([p, "long-uptime", n])
+        if r["udp"][p] < n:
+            raise vlib.Infra("long-uptime stage: %s UDPCount %d after %d datagrams (kernel drop?)" % (p, r["udp"][p], n))
+        case = {"proto": p, "sent": n, "published": r["lines"][p], "distinct": r["distinct"][p]}
+        if r["distinct"][p] < r["lines"][p]:
+            ctx.violation("%s, a collector up for 35 s with a trickle of traffic and then bursts of four datagrams: %d datagrams sent, each with its "
+                          "own sequence number; %d messages published of which only %d are different - a message was published twice: %s"
+                          % (p, n, r["lines"][p], r["distinct"][p], r["twice"][p]), case, key=p + ":uptime-duplicate")
+        elif r["lines"][p] != n:
+            ctx.violation("%s, a collector up for 35 s with a trickle of traffic and then bursts of four datagrams: %d datagrams sent (all received: "
+                          "UDPCount), each yielding records; %d messages published" % (p, n, r["lines"][p]), case, key=p + ":uptime-count")
+        else:
+            ctx.traces_validated += 1
+    ctx.extra["long_uptime"] = {k: r[k] for k in ("sent", "lines", "distinct")}
 
 
 def standalone(ctx, proto, tpls, data):
@@ -309,6 +406,8 @@ def backlog_stage(ctx, thorough):
                               key=proto + ":backlog-vanished")
                 continue
             raise vlib.Infra("backlog driver could not fill the queue: %s" % r)
+        for k in ("udp_after", "dec_after", "published", "max_same_payload"):       # (the driver leaves zeros out)
+            r.setdefault(k, 0)
         case = {"proto": proto, "sent": r["sent"], "result": r}
         ctx.extra.setdefault("backlog_runs", []).append({k: r.get(k) for k in ("proto", "sent", "udp_after", "dec_after", "published", "max_same_payload", "drained")})
         if not r.get("drained"):
